@@ -52,6 +52,8 @@ def gen_world(rng, i, tier):
     w = {"kind": "roundtrip", "src": src, "d": d, "c": c, "cfg": gen.io_cfg(rng)}
     # the target of the write may already exist (an older, longer version of the file)
     w["preexisting"] = rng.pick([None, None, "long", "garbage"])
+    # the directory argument of the write: plain, with a trailing slash, or a symbolic link to the directory
+    w["outdir"] = rng.pick(["$ROOT/out", "$ROOT/out", "$ROOT/out/", "$ROOT/outlink", "$ROOT/outlink/", "$ROOT/./out//"])
     if src == "built":
         w["ctor"] = rng.pick(["newKeyFile", "newIniFile", "newOpts"])
         ex = grammar.HIGH if rng.chance(0.25) else ()       # text that is not ASCII: bytes with the top bit set
@@ -93,7 +95,8 @@ def gen_world(rng, i, tier):
 
 def build_plans(world):
     d, c = world["d"], world["c"]
-    tree = [{"t": "d", "p": "$ROOT/out"}]
+    tree = [{"t": "d", "p": "$ROOT/out"}, {"t": "l", "p": "$ROOT/outlink", "to": "$ROOT/out"}]
+    od = world.get("outdir", "$ROOT/out")
     if world.get("preexisting") == "long":
         tree.append({"t": "f", "p": "$ROOT/out/w.conf", "c": "".join("old%d%sstale%d\n[oldsec%d]\n" % (n, d, n, n) for n in range(60))})
     elif world.get("preexisting") == "garbage":
@@ -110,11 +113,11 @@ def build_plans(world):
         d, c = world["d2"], world["c2"]
     ops.append({"op": "setTags", "k": 0, "delim": ord(d), "comment": ord(c)})
     ops.append({"op": "dump", "k": 0, "ext": True, "tag": "before"})
-    ops.append({"op": "write", "k": 0, "dir": "$ROOT/out", "name": "w.conf", "readback": True, "tag": "write"})
+    ops.append({"op": "write", "k": 0, "dir": od, "name": "w.conf", "readback": True, "tag": "write"})
     ops.append({"op": "readFile", "o": 1, "path": "$ROOT/out/w.conf", "delim": d, "comment": c, "tag": "reread"})
     ops.append({"op": "dump", "k": 1, "ext": True, "tag": "after"})
     # the object is not used up by a write: a second file written from it must read back identically, too
-    ops.append({"op": "write", "k": 0, "dir": "$ROOT/out", "name": "w2.conf", "readback": True, "tag": "write2"})
+    ops.append({"op": "write", "k": 0, "dir": od, "name": "w2.conf", "readback": True, "tag": "write2"})
     ops.append({"op": "readFile", "o": 2, "path": "$ROOT/out/w2.conf", "delim": d, "comment": c, "tag": "reread2"})
     ops.append({"op": "dump", "k": 2, "ext": True, "tag": "after2"})
     ops.append({"op": "free", "k": 0})
